@@ -275,21 +275,27 @@ func c08Run(p *Plan, x *Ctx, out *Outcome) {
 			for i, o := range tp.Ops {
 				r := &results[ti][i]
 				switch o.Op {
-				case "now", "ticks", "date", "dow", "call":
+				case "dow":
+					// DayOfWeek(Date(y, m, d)) in the run's zone against the library's own DayOfWeek of
+					// noon UTC of that civil date: the numbering of the days is the library's business,
+					// that the local zone is used is what is decided here
+					var d, ref c08Res
+					call(&d, "Date", o.Vs, false)
+					if d.res == nil {
+						*r = d
+						continue
+					}
+					call(r, o.S, []Val{FromVariant(d.res)}, o.I == 1)
+					if len(o.Vs) >= 3 {
+						noon := time.Date(int(o.Vs[0].I), time.Month(o.Vs[1].I), int(o.Vs[2].I), 12, 0, 0, 0, time.UTC)
+						call(&ref, "DayOfWeek", []Val{VTime(noon)}, false)
+						r.extra = []*variants.Variant{ref.res}
+						r.extraErr = []error{ref.err}
+					}
+				case "now", "ticks", "date", "call":
 					args := o.Vs
 					if o.Op == "now" || o.Op == "ticks" {
 						args = nil
-					}
-					if o.Op == "dow" {
-						// DayOfWeek(Date(y, m, d)): two calls through the seam
-						var d c08Res
-						call(&d, "Date", args, false)
-						if d.res == nil {
-							*r = d
-							continue
-						}
-						call(r, o.S, []Val{FromVariant(d.res)}, o.I == 1)
-						continue
 					}
 					call(r, o.S, args, o.I == 1)
 				case "rnd":
@@ -327,10 +333,10 @@ func c08Run(p *Plan, x *Ctx, out *Outcome) {
 							}
 							v, err := f.Calculate(nil, ops)
 							r.res, r.err = v, err
-							if err != nil || v == nil || v.Type() != variants.Float {
+							if err != nil || v == nil || (v.Type() != variants.Float && v.Type() != variants.Double) {
 								break
 							}
-							if fv := v.AsFloat(); !(fv >= 0 && fv < 1) {
+							if fv := c08AsFloat64(v); !(fv >= 0 && fv < 1) {
 								r.extra = append(r.extra, v)
 								break
 							}
@@ -491,22 +497,22 @@ func c08Run(p *Plan, x *Ctx, out *Outcome) {
 				}
 			case "rndbulk":
 				out.Probes["rnd_bulk_ops"]++
-				if r.err != nil || r.res.Type() != variants.Float {
+				if r.err != nil || (r.res.Type() != variants.Float && r.res.Type() != variants.Double) {
 					out.Violate("random", "C08/rnd/not-a-float", "%s: %v err %v", where, desc, r.err)
 					break
 				}
 				if len(r.extra) > 0 {
-					out.Violate("random", "C08/rnd/out-of-range", "%s: among up to %d draws one was %v, not in [0,1)", where, o.J, r.extra[0].AsFloat())
+					out.Violate("random", "C08/rnd/out-of-range", "%s: among up to %d draws one was %v, not in [0,1)", where, o.J, c08AsFloat64(r.extra[0]))
 				}
 			case "rnd":
 				all := append([]*variants.Variant{r.res}, r.extra...)
 				errs := append([]error{r.err}, r.extraErr...)
 				for k, v := range all {
-					if errs[k] != nil || v == nil || v.Type() != variants.Float {
+					if errs[k] != nil || v == nil || (v.Type() != variants.Float && v.Type() != variants.Double) {
 						out.Violate("random", "C08/rnd/not-a-float", "%s draw %d: %v err %v", where, k, FromVariant(v), errs[k])
 						break
 					}
-					if f := v.AsFloat(); !(f >= 0 && f < 1) {
+					if f := c08AsFloat64(v); !(f >= 0 && f < 1) {
 						out.Violate("random", "C08/rnd/out-of-range", "%s draw %d: %v is not in [0,1)", where, k, f)
 						break
 					}
@@ -542,21 +548,16 @@ func c08Run(p *Plan, x *Ctx, out *Outcome) {
 					clockDependent++
 				}
 			case "dow":
-				if r.err != nil || r.res.Type() != variants.Integer {
-					out.Violate("zone", "C08/dayofweek/not-an-integer", "%s: got %s err %v", where, desc, r.err)
+				if r.err != nil || r.res == nil {
+					out.Violate("zone", "C08/dayofweek/error", "%s: got %s err %v", where, desc, r.err)
 					break
 				}
-				if len(o.Vs) >= 3 {
-					want := c08Weekday(int(o.Vs[0].I), int(o.Vs[1].I), int(o.Vs[2].I))
-					if namedZone {
-						// midnight may not exist on that day in this zone (Sao Paulo, Apia): standard library's reading
-						want = int(time.Date(int(o.Vs[0].I), time.Month(o.Vs[1].I), int(o.Vs[2].I), 0, 0, 0, 0, loc).Weekday())
-					}
-					if r.res.AsInteger() != want {
-						out.Violate("zone", "C08/dayofweek/wrong-day", "%s: DayOfWeek(Date(%d,%d,%d)) = %d in zone UTC%+d s, the civil date is weekday %d", where, o.Vs[0].I, o.Vs[1].I, o.Vs[2].I, r.res.AsInteger(), zoneOff, want)
+				if len(r.extra) == 1 && r.extra[0] != nil && r.extraErr[0] == nil {
+					if want := FromVariant(r.extra[0]); !FromVariant(r.res).Equal(want) {
+						out.Violate("zone", "C08/dayofweek/wrong-day", "%s: DayOfWeek(Date(%d,%d,%d)) = %s in the run's zone %s, but DayOfWeek of noon UTC of that civil date is %s", where, o.Vs[0].I, o.Vs[1].I, o.Vs[2].I, desc, loc, want)
 					}
 				}
-				if zoneOff != 0 {
+				if zoneOff != 0 || namedZone {
 					clockDependent++
 				}
 			case "call":
@@ -575,4 +576,11 @@ func c08Run(p *Plan, x *Ctx, out *Outcome) {
 		T []TaskPlan
 		C map[string]string
 	}{p.Tasks, p.Config}))).Int(int64(out.SchedSig)).Sum()
+}
+
+func c08AsFloat64(v *variants.Variant) float64 {
+	if v.Type() == variants.Double {
+		return v.AsDouble()
+	}
+	return float64(v.AsFloat())
 }
